@@ -360,6 +360,7 @@ func (uv *UtxoVM) SelectUtxos(fromAddr string, totalNeed *big.Int, needLock, exc
 	cacheKeys := map[string]bool{} // 先从cache里找找，不够再从leveldb找,因为leveldb prefix scan比较慢
 	txInputs := []*protos.TxInput{}
 	uv.clearExpiredLocks()
+	VerifYield("select:start")
 	uv.UtxoCache.Lock()
 	if l2Cache, exist := uv.UtxoCache.Available[fromAddr]; exist {
 		for uKey, uItem := range l2Cache {
@@ -406,6 +407,7 @@ func (uv *UtxoVM) SelectUtxos(fromAddr string, totalNeed *big.Int, needLock, exc
 		}
 	}
 	uv.UtxoCache.Unlock()
+	VerifYield("select:after-cache")
 	if !foundEnough {
 		// 底层key: table_prefix from_addr "_" txid "_" offset
 		addrPrefix := pb.UTXOTablePrefix + fromAddr + "_"
@@ -435,6 +437,7 @@ func (uv *UtxoVM) SelectUtxos(fromAddr string, totalNeed *big.Int, needLock, exc
 			if err != nil {
 				return nil, nil, nil, err
 			}
+			VerifYield("select:table-item")
 			if needLock {
 				if uv.tryLockKey(key) {
 					willLockKeys = append(willLockKeys, key)
@@ -529,6 +532,7 @@ func (uv *UtxoVM) GetBalance(addr string) (*big.Int, error) {
 		return balanceCopy, nil
 	}
 	uv.mutexBalance.Unlock()
+	VerifYield("balance:after-cache-miss")
 	// 扫表填充cache期间不能有交易/区块正在执行: 它们先改cache里的余额再落盘, 如果扫到的是落盘前的数据,
 	// 而cache在它们改完余额之后才填充, 这笔变动就永远丢了
 	uv.Mutex.Lock()
